@@ -261,10 +261,23 @@ def check_pvector_wiring(ctx: Check, tree: Tree) -> None:
         fn = tree.func(f"{MOD}::{pv}.formulate")
         rd = RD(fn.node)
         seen = {"K": False, "P": False}
-        for node in walk_function(fn.node):
-            if not (isinstance(node, ast.DictComp) and isinstance(node.key, ast.Subscript) and isinstance(node.value, ast.Call)):
-                continue
+
+        class _Item:  # one `K[i, j] -> parametrization(...)` pair: an item of a dict comprehension or a store `D[K[i, j]] = ...`
+            def __init__(self, node, key, value):
+                self.node, self.key, self.value = node, key, value
+
+        items = []
+        for n_ in walk_function(fn.node):
+            if isinstance(n_, ast.DictComp) and isinstance(n_.key, ast.Subscript) and isinstance(n_.value, ast.Call):
+                items.append(_Item(n_, n_.key, n_.value))
+            elif (isinstance(n_, ast.Assign) and len(n_.targets) == 1 and isinstance(n_.targets[0], ast.Subscript) and isinstance(n_.targets[0].slice, ast.Subscript)
+                  and isinstance(n_.value, ast.Call)):
+                items.append(_Item(n_, n_.targets[0].slice, n_.value))
+        for node in items:
             callee = tree.callee(node.value, fn)
+            if callee is None or not callee.endswith(".parametrization"):
+                if isinstance(node.node, ast.Assign):
+                    continue  # another kind of store (e.g. rho_i -> phase-space factor)
             base = node.key.value
             base_defs = rd.reaching(base) if isinstance(base, ast.Name) else set()
             pos = {d.index for d in base_defs}
@@ -273,23 +286,23 @@ def check_pvector_wiring(ctx: Check, tree: Tree) -> None:
             if callee == f"{MOD}::{km}.parametrization":
                 seen["K"] = True
                 ok = pos == {1} and idx == f"{kw.get('i')},{kw.get('j')}"
-                ctx.verdict(ok, "R-WIRING", f"{fn.qual}::K[i,j]->{km}.parametrization", tree.loc(node),
+                ctx.verdict(ok, "R-WIRING", f"{fn.qual}::K[i,j]->{km}.parametrization", tree.loc(node.node),
                             f"{pv}.formulate: {unparse(node.key)} (2nd element of _create_matrices) -> {km}.parametrization(i={kw.get('i')}, j={kw.get('j')})",
                             None if ok else {"tuple_position": sorted(map(str, pos)), "index": idx})
             elif callee == f"{MOD}::{pv}.parametrization":
                 seen["P"] = True
                 ok = pos == {2} and idx == f"{kw.get('i')}"
-                ctx.verdict(ok, "R-WIRING", f"{fn.qual}::P[i]->parametrization", tree.loc(node),
+                ctx.verdict(ok, "R-WIRING", f"{fn.qual}::P[i]->parametrization", tree.loc(node.node),
                             f"{pv}.formulate: {unparse(node.key)} (3rd element of _create_matrices) -> {pv}.parametrization(i={kw.get('i')})",
                             None if ok else {"tuple_position": sorted(map(str, pos)), "index": idx})
             else:
-                ctx.violation("R-WIRING", f"{fn.qual}::foreign-parametrization::{callee}", tree.loc(node),
+                ctx.violation("R-WIRING", f"{fn.qual}::foreign-parametrization::{callee}", tree.loc(node.node),
                               f"{pv}.formulate substitutes {unparse(node.key)} by {callee}: not the library's own K/P parametrisation")
         if not all(seen.values()):
             raise AnalysisError(f"{fn.qual}: K / P substitution not found ({seen})")
         # the same pole symbols feed K and P (so that the poles of P are the poles of K)
         shared = ("s", "pole_position", "pole_width", "residue_constant", "pole_id", "n_poles")
-        calls = [n.value for n in walk_function(fn.node) if isinstance(n, ast.DictComp) and isinstance(n.value, ast.Call)]
+        calls = [it.value for it in items]
         kcall = next(c for c in calls if (tree.callee(c, fn) or "").endswith(f"{km}.parametrization"))
         pcall = next(c for c in calls if (tree.callee(c, fn) or "").endswith(f"{pv}.parametrization"))
         from ..inline import Inliner
